@@ -30,7 +30,7 @@ JUDGE = "PathSafetyTrace"
 
 
 # --------------------------------------------------------------------------- judging helpers
-def _judge(ctx: Ctx, lines, describe, kind, batch=3000):
+def _judge(ctx: Ctx, lines, describe, kind, batch=3000, prefix=""):
     """lines carry t/i; describe(line) -> (key suffix, replay case)"""
     index = {(ln["t"], ln["i"]): ln for ln in lines}
     for r in ctx.judge(AREA, JUDGE, lines, batch=batch):
@@ -38,7 +38,7 @@ def _judge(ctx: Ctx, lines, describe, kind, batch=3000):
         if ln is None:
             raise MachineryError(f"judge rejected an unknown line: {r}")
         suffix, case = describe(ln)
-        ctx.violation(f"{r['clause']}:{suffix}", r["clause"], case, kind=kind)
+        ctx.violation(f"{prefix}{r['clause']}:{suffix}", prefix + r["clause"], case, kind=kind)
 
 
 def judge_joins(ctx: Ctx, cases, kind="join"):
@@ -74,14 +74,18 @@ def judge_sans(ctx: Ctx, cases, kind="san"):
     return changed
 
 
-def judge_serves(ctx: Ctx, targets_by_api, tree, kind="serve"):
-    """targets_by_api: list of (api, raw target); requests run in this process (they chdir / import)"""
-    lines, t, n_in_t = [], 0, 0
+def judge_serves(ctx: Ctx, targets_by_api, tree, kind="serve", prefix=""):
+    """targets_by_api: list of (api, raw target); requests run in this process (they chdir / import).
+    One trace = a tree line (as seen from the api's exported root) + up to 400 requests."""
+    lines, t, n_in_t, cur_root = [], 0, 0, None
     stats = {"200": 0, "404": 0, "exc": 0}
     excs = {}
     for api, raw in targets_by_api:
+        if n_in_t > 0 and ps.rootrel_of(api) != cur_root:
+            t, n_in_t = t + 1, 0
         if n_in_t == 0:
-            hdr = tree.line()
+            cur_root = ps.rootrel_of(api)
+            hdr = tree.line(cur_root)
             hdr["t"], hdr["i"] = t, 0
             lines.append(hdr)
         ln = ps.serve_line(tree, api, raw)
@@ -110,7 +114,7 @@ def judge_serves(ctx: Ctx, targets_by_api, tree, kind="serve"):
         suffix = ln.get("api", "tree") + (":" + ln["exc"] if ln.get("exc") else "")
         return suffix, {"api": ln.get("api"), "raw": raw}
 
-    _judge(ctx, lines, describe, kind)
+    _judge(ctx, lines, describe, kind, prefix=prefix)
     if stats["200"] == 0 or stats["404"] == 0:
         raise MachineryError(f"end-to-end driver is vacuous: {stats}")
     for k, v in excs.items():
@@ -125,11 +129,17 @@ def model_checks(ctx: Ctx):
     for cfg in (["MCQ_contract", "MCQ_a3p1", "MCQ_small_p3"] if q else
                 ["MCQ_contract", "MCQ_a3p1", "MCQ_small_p3", "MCT_a3p2", "MCT_a2p3"]):
         ctx.model_check(AREA, "MCPathSafety", cfg, timeout=3000)
+    # 3 atoms x 3 components (and x 6 in thorough) through the depth abstraction; AbsCommutes in the concrete
+    # configurations above ties the abstraction to the real accumulated path
+    ctx.model_check(AREA, "MCPathSafety", "MCQ_abs_a3p3", timeout=600)
+    if not q:
+        ctx.model_check(AREA, "MCPathSafety", "MCT_abs_a3p6", timeout=3000)
     for cfg in (["MCQ_san"] if q else ["MCQ_san", "MCT_san", "MCT_san7"]):
         ctx.model_check(AREA, "MCFilename", cfg, timeout=3000)
     # non-vacuity: every hand-broken transcription must violate the contract
     broken = {}
     for mod, cfgs in (("MCPathSafety", ["MCV_nonorm", "MCV_noeq", "MCV_noprefix", "MCV_noabs"]),
+                      ("MCPathSafety", ["MCV_abs_nonorm", "MCV_abs_noeq"]),
                       ("MCFilename", ["MCV_san_nostrip", "MCV_san_nosep", "MCV_san_nosplit", "MCV_san_rstriponly"])):
         for cfg in (cfgs[:2] if q else cfgs):
             r = tlc.run_tlc(AREA, mod, cfg, workers=2, tmp=ctx.tmp, allow_violation=True, timeout=600)
@@ -207,9 +217,43 @@ def san_cases(ctx: Ctx):
         cases += [[chr(c)] for c in range(0x3400, 0x110000)]
     cases += [["My cool movie.mov"], ["../../../etc/passwd"], ["i contain cool \xfcml\xe4uts.txt"], [""], ["."], [".."],
               ["_._"], [" . "], ["a/../b"], ["..\\..\\x"], ["．．／etc"], ["‥/‥/x"], [".․a"],
-              ["a b\tc\nd"], ["　.bashrc"], ["\xa0.profile"], ["CON"], ["aux.txt"], ["-rf"], ["x" * 300 + "/" + "." * 20]]
+              ["a b\tc\nd"], ["　.bashrc"], ["\xa0.profile"], ["CON"], ["aux.txt"], ["-rf"], *[[n] for n in ps.WINDOWS_DEVICE_NAMES], ["x" * 300 + "/" + "." * 20]]
     cases += ps.random_san_cases(rng, 5000 if q else 200000)
     return cases, n_model
+
+
+# --------------------------------------------------------------------------- growth: loader kinds, options, argument types
+def loader_targets(ctx: Ctx, tree):
+    """(api, raw) for the second family of entry points: cache / mimetype / disallow options, a FILE exported as a
+    'directory', package loaders on a sub directory and on the whole package, PathLike arguments, cwd-relative root"""
+    rng = random.Random(ctx.seed + 3)
+    raws = ps.sentinel_targets(tree) + ps.enum_targets(ps.SEGS, 1) + ps.enum_targets(ps.CORE_SEGS, 2)
+    raws += ["b.txt", "deep/c.txt", "../a.txt", "../sub/b.txt", "deep/../../a.txt", "root/a.txt", "root/../secret.txt",
+             "__init__.py", "rootx/secret.txt", "root/../rootx/secret.txt", "a.txt/../../secret.txt", "x", "../x",
+             "%2e%2e/x", "..%2fsecret.txt", "%00", "a.txt%00", "//", "/"]
+    raws += ps.random_targets(rng, 200 if ctx.quick else 6000)
+    if not ctx.quick:
+        raws += ps.enum_targets(ps.CORE_SEGS, 3)[len(ps.CORE_SEGS) + len(ps.CORE_SEGS) ** 2:]
+    return [(api, raw) for api in ps.APIS2 for raw in raws]      # grouped by api: one tree view per group
+
+
+def observations(ctx: Ctx, tree):
+    """growth (a), (c), (d): what the code does outside the property's domain -- recorded, never a verdict"""
+    lines = [dict(tree.line(), t="links", i=0)]
+    seen = {}
+    for api in ("sfd_abs", "sdm_abs", "sdm_pkg"):
+        for raw in ps.LINK_TARGETS:
+            ln = ps.serve_line(tree, api, raw)
+            ln["op"], ln["t"], ln["i"] = "servelink", "links", len(lines)
+            lines.append(ln)
+            seen[f"{api} {raw}"] = f"{ln['status']} file id {ln['served']}" + (f" {ln['exc']}" if ln["exc"] else "")
+    rej = ctx.judge(AREA, JUDGE, lines)
+    if rej:
+        raise MachineryError(f"observation lines must not produce verdicts: {rej[:3]}")
+    ctx.notes["observation_symlink_inside_root_pointing_outside"] = seen
+    ctx.notes["observation_bytes_arguments"] = ps.bytes_directory_probe(tree)
+    from werkzeug.utils import secure_filename
+    ctx.notes["observation_windows_device_names_on_posix"] = {n: secure_filename(n) for n in ps.WINDOWS_DEVICE_NAMES}
 
 
 # --------------------------------------------------------------------------- the repository's own tests
@@ -342,6 +386,9 @@ def run(ctx: Ctx):
     # end to end
     targets, probe = serve_targets(ctx)
     ctx.notes["serve_outcomes"] = judge_serves(ctx, targets, probe)
+    # growth: every loader kind / option / argument type under the same containment clause (keys Loaders...)
+    ctx.notes["loader_outcomes"] = judge_serves(ctx, loader_targets(ctx, probe), probe, kind="serve", prefix="Loaders")
+    observations(ctx, probe)
     # secure_filename
     cases, n_model = san_cases(ctx)
     ctx.notes["filename_cases_from_model"] = n_model
